@@ -1,7 +1,7 @@
 /-
   C15 driver: replays a history (harness/history.cpp output) through the bookkeeping of the
   evaluator-state model (LibfiveModel/EvalState.lean): `count_simd` after every value / batch /
-  derivative / Jacobian query, `clear_vars` and the X/Y/Z seeds restored after every query, the
+  derivative / Jacobian / feature query, `clear_vars` and the X/Y/Z seeds restored after every query, the
   variable store and the `updateVars` report, well-formedness / closedness of every tape
   (hypothesis `TapeOK` of the frame theorems), and — from the real feature counts — which of the
   two hypotheses of `feature_walk_frame` fail for a feature query (`hyp …` lines).
@@ -76,13 +76,12 @@ def handle (st : St) (line : String) : St × List String :=
       else if model == (ch == "1") then s!"ok setvar case {st.case} q {st.q}"
       else s!"MISMATCH setvar case {st.case} q {st.q} model {model} real {ch}"
     ({ st with vars := vars }, [o])
-  | "q" :: kind :: "depth" :: _ :: "csimd" :: cs :: "clear" :: cl :: "seeds" :: a :: b :: c :: rest =>
+  | "q" :: kind :: "depth" :: _ :: "csimd" :: cs :: "clear" :: cl :: "seedsok" :: sok :: rest =>
     let q := st.q + 1
     let tag := s!"case {st.case} q {q}"
     let cs := nat! cs
-    let one := "3f800000"
-    let o1 := if cl == "0" && a == one && b == one && c == one then [] else
-      [s!"MISMATCH epilogue {tag} clear {cl} seeds {a} {b} {c}"]
+    let o1 := if cl == "0" && sok == "1" then [] else
+      [s!"MISMATCH epilogue {tag} clear {cl} leaf-derivative-rows-intact {sok}"]
     -- number of points of a batch: token after "L"?  use the program's count: answers hold n (or 4n) tokens
     let ans := (rest.dropWhile (· != "L")).drop 1 |>.takeWhile (· != "|")
     let expect : Option Nat :=
@@ -107,11 +106,11 @@ def handle (st : St) (line : String) : St × List String :=
     let cnt := ((rest.dropWhile (· != "counts")).drop 2).map nat! |>.toArray
     match parseTape tapeToks with
     | some T =>
-      let (_, bad) := featCountWalk 256 16 (fun k => cnt.getD k 0) T.t (simdRound 16 1, [])
-      let hy := bad.map fun (h, id) => s!"hyp {h} {tag} clause {id}"
-      let o := if tapeOKb st.base T then [s!"ok feature-hyps {tag} failing {bad.length}"]
-               else [s!"MISMATCH tape {tag} feature tape violates TapeOK"]
-      (st, hy ++ o)
+      -- count_simd the feature walk leaves behind, from the operand feature counts
+      let cs := featCountWalk 256 16 (fun k => cnt.getD k 0) T.t (simdRound 16 1)
+      let o1 := if tapeOKb st.base T then [] else [s!"MISMATCH tape {tag} feature tape violates TapeOK"]
+      let o2 := if cs == st.csimd then [] else [s!"MISMATCH count_simd {tag} feature-walk model {cs} real {st.csimd}"]
+      (st, if (o1 ++ o2).isEmpty then [s!"ok feature-walk {tag} count_simd {cs}"] else o1 ++ o2)
     | none => (st, [s!"MISMATCH parse {tag} fc"])
   | _ => (st, [])
 
